@@ -21,11 +21,12 @@ D = "orquestra.quantum.distributions._measurement_outcome_distribution"
 MANIFEST = {
     "engine": "engine-F",
     "category": "other",
-    "technique": "contract-based deductive verification: the marginal postcondition of subdistribution (a projected outcome is present iff some source outcome projects to it and carries the sum of exactly those probabilities; out-of-range / duplicate qubits raise) proved by a loop invariant over a symbolic dictionary (Engine V, z3) for all distributions and all qubit lists; frame conditions (source distribution / input dictionary / parameter dictionary unmodified) by static ownership analysis; normalisation by the constructor and the distance laws by exhaustive enumeration with exact rational weights over stated small domains (bounded)",
-    "text": "The marginal clause and the frame clauses are proved for all inputs; the constructor's normalisation and the distance laws are decided exhaustively for all key sets up to 4 keys over 3 subsystems with multi-digit outcomes and every ordered list of distinct qubits - bounded, so the level claimed is 'other' (frame proof + exhaustive bounded enumeration), not proof. Kernel positive-semidefiniteness and Gibbs' inequality are not decidable here.",
+    "technique": "contract-based deductive verification: the constructor chain under contract for ALL tuple-keyed dictionaries (Engine V, z3: the three validators return exactly the quantified statement; is_measurement_outcome_distribution accepts exactly non-empty / non-negative / fixed-length inputs; normalize_measurement_outcome_distribution gives every member old value x 1/total by a loop invariant over the iteration order and raises on a zero / denormal total; __init__ verified against its callees' contracts: rejects exactly the invalid inputs, keeps or scales the content, probabilities non-negative); compute_jensen_shannon_divergence = half the clipped NLL in each direction (symmetric); the marginal postcondition of subdistribution (a projected outcome is present iff some source outcome projects to it and carries the sum of exactly those probabilities; out-of-range / duplicate qubits raise) proved by a loop invariant over a symbolic dictionary (Engine V, z3) for all distributions and all qubit lists; frame conditions (source distribution / input dictionary / parameter dictionary unmodified) by static ownership analysis; normalisation by the constructor and the distance laws by exhaustive enumeration with exact rational weights over stated small domains (bounded)",
+    "text": "The constructor clause (tuple keys), the marginal clause, the symmetry of the symmetrised divergence and the frame clauses are proved for all inputs (floats as reals; 'sums to 1' = the proved scaling + linearity of the sum, Lean twin sum_scaled_eq_one); string keys, the MMD laws and save / load are decided exhaustively for all key sets up to 4 keys over 3 subsystems with multi-digit outcomes and every ordered list of distinct qubits - bounded, so the level claimed is 'other' (frame proof + exhaustive bounded enumeration), not proof. Kernel positive-semidefiniteness and Gibbs' inequality are not decidable here.",
     "note": "Trusted: Engine F summaries; Python dict semantics executed natively. Bounds stated per obligation in the evidence.",
 }
-TRUSTED = ["vfw/frame.py ownership analysis", "CPython executing the real functions on enumerated inputs"]
+TRUSTED = ["vfw/frame.py ownership analysis", "Engine V dictionary model (membership / value arrays + iteration order listing exactly the members); math.isclose as an uninterpreted predicate; "
+           "lemma: a sum of non-negative reals is non-negative (lean/Prelude.lean sum_nonneg_of_nonneg); floats as reals", "CPython executing the real functions on enumerated inputs"]
 ASSUMPTIONS = ["bounded: 4 subsystems, <= 3 keys (plus the uniform 16-key distribution), outcomes from {0,1,2,12}; weights are exact Fractions or floats as listed",
                "MMD non-negativity and clipped-NLL >= entropy are checked numerically on enumerated pairs only (analytic facts)"]
 EXTRA = {"explanation": "frame obligations are decided statically on the current AST; value-level contracts are enumerated exhaustively over the stated finite domains"}
@@ -355,6 +356,11 @@ def build(tier, seed):
     obs = []
     fb = vprop.enum_ob("x", [], lambda: list(_key_sets())[:40], _check_marginal, "").run
     obs.append(_marginal_ob(fb))
+    from props import C17ctor
+    fb_dist = vprop.enum_ob("x", [], lambda: list(_pairs())[:30], _check_distances, "").run
+    obs.extend(C17ctor.build(None, fb_dist))
+    from vfw import lean
+    obs.append(lean.prelude_ob('C17', 'a sum of non-negative reals is non-negative; values scaled by 1 / total sum to 1; symmetry of the RBF kernel'))
 
     def frame_ob(key):
         def run():
